@@ -27,7 +27,7 @@ def obj_fn(program):
     def one(d):
         cls = d["cls"]
         kind = "max" if cls in ("ObjectiveTasksStartLatest", "ObjectiveMaximizeResourceUtilization", "ObjectiveMaximizeMaxBufferLevel",
-                                "ObjectiveMaximizeIndicator") else "min"
+                                "ObjectiveMaximizeIndicator") or (cls == "Objective" and d["args"].get("kind") == "maximize") else "min"
 
         def fn(leaf):
             view = ref.View(program, leaf)
@@ -36,7 +36,7 @@ def obj_fn(program):
                     return leaf[("horizon",)]  # free horizon: the horizon unknown itself is part of the schedule
                 ends = [view.end[t] for t in view.tasks if view.sched[t]]
                 return max(ends) if ends else 0
-            if cls in ("ObjectiveMinimizeIndicator", "ObjectiveMaximizeIndicator"):
+            if cls in ("ObjectiveMinimizeIndicator", "ObjectiveMaximizeIndicator", "Objective"):
                 vals = ref.indicator_values(view, view.dd[d["args"]["target"]["$"]])
             else:
                 vals = ref.indicator_values(view, d)
